@@ -1,7 +1,7 @@
 (* C03 — property theorems only.  Each is closed by [exact <lemma>] and followed by
    Print Assumptions.  [vle cf orc sp st] is VLE.__call__ with specification [sp] on stream [st]
    for the package [cf], with every numerical solver and property model inside the record [orc]. *)
-From V Require Import Common.NumFacts C03.Model C03.ModelVlle C03.ModelHist C03.Proofs.
+From V Require Import Common.NumFacts C03.Model C03.ModelVlle C03.ModelHist C03.ModelRx C03.Proofs C03.ProofsRx.
 Open Scope Q_scope.
 
 (* for every oracle: the per-chemical total over all phases is unchanged, and so are the shape
@@ -176,3 +176,55 @@ Example C03_expand_phases_example :
   row_of (expand_phases x [0; 2; 3]%nat 2) 0 = [0; 0] /\
   row_of (mkixr [0; 2; 3]%nat [[0; 0]; [1; 0]; [0; 5]] (kc_for [2; 3]%nat)) 3 = [1; 0].
 Proof. cbv zeta. repeat split; vm_compute; reflexivity. Qed.
+
+
+(* ---------- ordinary flashes on a VLE object that has performed a REACTIVE flash before (ModelRx.v) ----------
+   The object keeps the reaction mole change (_dmol_vle, _dF_mol) of the last reactive call for ever; every read of it in vle.py
+   is behind the test `gas_conversion or liquid_conversion` of the call in progress.  For EVERY remembered value [o]:
+   an ordinary call conserves every chemical, changes no other phase, and leaves the remembered value alone ... *)
+Theorem C03_vle_used_conserve : forall cf orc sp o st st' o',
+  wf st -> vle_used cf orc sp o st = (VOk st', o') ->
+  (forall k, tot st' k == tot st k) /\
+  length (liq st') = length (liq st) /\ length (vap st') = length (vap st) /\ oth st' = oth st /\ o' = o.
+Proof. exact vle_used_conserve_lemma. Qed.
+Print Assumptions C03_vle_used_conserve.
+(* ... keeps every flow non-negative under the same solver contracts as on a fresh object ... *)
+Theorem C03_vle_used_nonneg : forall cf orc sp o st st' o',
+  wf st -> nn st -> vle_hyp cf orc sp st -> vle_used cf orc sp o st = (VOk st', o') -> nn st'.
+Proof. exact vle_used_nonneg_lemma. Qed.
+Print Assumptions C03_vle_used_nonneg.
+(* ... and puts the phase-locked chemicals where they belong *)
+Theorem C03_vle_used_light_heavy : forall cf orc sp o st st' o',
+  wf st -> nn st -> vle_used cf orc sp o st = (VOk st', o') ->
+  forall k, (k < length (liq st))%nat ->
+    (is_light cf k -> nthq (liq st') k == 0 /\ nthq (vap st') k == nthq (liq st) k + nthq (vap st) k) /\
+    (is_heavy cf k -> nthq (vap st') k == 0 /\ nthq (liq st') k == nthq (liq st) k + nthq (vap st) k).
+Proof. exact vle_used_placed_lemma. Qed.
+Print Assumptions C03_vle_used_light_heavy.
+(* histories on one stream: ordinary flashes, reactive calls (NOT modelled: any resulting stream, any remembered mole change)
+   and outside changes in any order -- every ordinary flash conserves what it found on the stream *)
+Theorem C03_vle_reactive_history_conserve : forall cf hs s o, Forall flash_conserves (rrun cf s o hs).
+Proof. intros cf hs s o. exact (rrun_conserve_lemma cf hs s o). Qed.
+Print Assumptions C03_vle_reactive_history_conserve.
+(* ... and is the flash it would be had no reactive call left anything behind *)
+Theorem C03_vle_reactive_history_forget : forall cf hs s o o', rrun cf s o hs = rrun cf s o' (forget hs).
+Proof. intros cf hs s o o'. exact (rrun_forget_lemma cf hs s o o'). Qed.
+Print Assumptions C03_vle_reactive_history_forget.
+(* the guards are what this rests on: the same last two statements of set_thermal_condition with the guard taken as true on
+   an object that remembers (1, -1) -- i.e. a stale mole change added unconditionally -- turn 1 + 0 kmol/hr of the first
+   chemical into 2 and the 1 kmol/hr of the second into nothing; with the guard false (the code) nothing of the kind *)
+Definition c_rx := mkctx [0%nat; 1%nat] [1; 1] 64 0 0 2 2 2.
+Definition orc_rx := mkorc 0 (fun _ => 0) (fun _ => 0) 0 0 (fun _ _ => (0, [])) (fun _ _ => (0, []))
+  (fun _ _ _ => [1#2; 1#2]) (fun _ => ([], 0)) (fun _ _ _ _ => 0) (fun _ _ _ _ _ => 0) (fun _ _ _ _ _ => 0).
+Definition st_rx := mkst [1; 1] [0; 0] [] 350 101325.
+Example C03_stale_mole_change_needs_guard :
+  let bad := ms (tp_two_phase_o true (mkro (Some [1; -1])) orc_rx c_rx 350 101325 (mkm st_rx 0)) in
+  let good := ms (tp_two_phase_o false (mkro (Some [1; -1])) orc_rx c_rx 350 101325 (mkm st_rx 0)) in
+  tot bad 0 == 2 /\ tot bad 1 == 0 /\ tot good 0 == tot st_rx 0 /\ tot good 1 == tot st_rx 1 /\
+  good = mkst [1#2; 1#2] [1#2; 1#2] [] 350 101325.
+Proof. vm_compute. repeat split; try reflexivity; discriminate. Qed.
+(* non-vacuity: a history with a reactive step that leaves (1, -1) behind, then a two-phase flash *)
+Example C03_reactive_history_example :
+  rrun cf2 st_lever robj0 [RReact st_rx (Some [1; -1]); RFlash orc_tp (SpTP 350 101325)] =
+  [(st_rx, VOk (mkst [1; 0] [0; 1] [] 350 101325))].
+Proof. vm_compute. reflexivity. Qed.
